@@ -830,7 +830,8 @@ impl Gen {
                             _ => Bytes(b"something else".to_vec()),
                         });
                     },
-                    "write_all" => d = Some(Bytes(format!("<m{}.{}>text", self.run_tag, self.step).into_bytes())),
+                    // any data a file may hold, incl. empty and not valid UTF-8
+                    "write_all" => d = Some(if rng.chance(1, 2) { self.data(rng) } else { Bytes(format!("<m{}.{}>text", self.run_tag, self.step).into_bytes()) }),
                     "readlink" | "readlink_abs" => {
                         let node = m.abs(&a).ok().and_then(|p| m.t.nodes.get(&p).cloned());
                         let (rel, tgt) = node.map(|n| (n.rel.unwrap_or_default(), n.target.unwrap_or_default())).unwrap_or_default();
